@@ -73,7 +73,7 @@ def C(
         values = pandas.Series(
             values.__wrapped__ if isinstance(values, FactorValues) else values
         )
-        values = values.drop(index=values.index[drop_rows])
+        values = values.iloc[numpy.delete(numpy.arange(len(values)), drop_rows)]
         return encode_contrasts(
             values,
             contrasts=contrasts,
